@@ -23,6 +23,7 @@ def GU(id, entry, fn, can, loops=None):
 UNITS += [GU("reader_lock", "h_reader_lock", "p_rwlock_reader_lock", 3, "p_rwlock_reader_lock"), GU("writer_lock", "h_writer_lock", "p_rwlock_writer_lock", 2, "p_rwlock_writer_lock"),
           GU("reader_trylock", "h_reader_trylock", "p_rwlock_reader_trylock", 2), GU("writer_trylock", "h_writer_trylock", "p_rwlock_writer_trylock", 2),
           GU("reader_unlock", "h_reader_unlock", "p_rwlock_reader_unlock", 2), GU("writer_unlock", "h_writer_unlock", "p_rwlock_writer_unlock", 3),
+          GU("writer_lock_waitfail", "h_writer_lock_waitfail", "p_rwlock_writer_lock", 2, "p_rwlock_writer_lock"), GU("reader_lock_waitfail", "h_reader_lock_waitfail", "p_rwlock_reader_lock", 2, "p_rwlock_reader_lock"),
           GU("null", "h_null", "p_rwlock_reader_lock", 1)]
 # the initial state the monitor invariant starts from: a new general-model lock has both counter words zero (unit shared with C18, where its allocation-failure exits matter)
 UNITS.append(dict(id="general_new", harness="../C18/misc.c", entry="h_rwlock_new", sources=["prwlock-general.c"], enforce=None, replace=[], defines=["UNIT_RWLOCK_NEW"], canaries=2, timeout=300,
@@ -36,4 +37,4 @@ LEVEL_TEXT = ("Native model: every operation is exactly one pthread_rwlock call 
               "last reader out signals a waiting writer, a writer out signals a waiting writer or else broadcasts to all waiting readers (the safety half of 'no lost wake-up').")
 LEVEL_NOTE = ("NOT decided: that a finite set of lock/unlock rounds always runs to completion (liveness over schedules); the wake-up obligations above are its safety half, the step to termination is a "
               "paper argument. Trusted: monitor rule, pthread semantics (C01/C03 wrappers), capacity assumption of fewer than 32767 simultaneous readers (15-bit field; beyond it the reader count "
-              "overflows into the writer field), cond wait failure paths excluded (wait returns TRUE). prwlock-general.c is verified although CMake selects the native model here.")
+              "overflows into the writer field), cond wait failure paths are covered by the two *_waitfail units only (FALSE, no hold, registration removed). prwlock-general.c is verified although CMake selects the native model here.")
